@@ -171,7 +171,7 @@ func killAll() {
 
 // ---- crash evidence in the server output ------------------------------------------------------
 
-var crashRe = regexp.MustCompile(`(?m)^(panic: .*|fatal error: .*|\[signal .*|.*checkptr: .*|.*unexpected fault address.*|SIGSEGV: .*)$`)
+var crashRe = regexp.MustCompile(`(?m)^(panic: .*|fatal error: .*|\[signal .*|.*checkptr: .*|.*unexpected fault address.*|SIGSEGV: .*|\S+\tFATAL\t.*)$`)
 
 // crashLines returns the crash-like lines in the process log (first few) and a context excerpt.
 func (p *proc) crashLines() (lines []string, excerpt string) {
@@ -206,14 +206,14 @@ func (p *proc) logTail(n int) string {
 }
 
 type raceReport struct {
-	Key     string   `json:"key"`
-	Regatta bool     `json:"regatta_frame"`
+	Key     string `json:"key"`
+	Regatta bool   `json:"regatta_frame"`
 	// Coro: the report involves regatta's copy of iter.Pull (util/iter), which switches
 	// coroutines through runtime.coroswitch without the race annotations the standard library's
 	// iter.Pull carries; the two sides never run concurrently, the report is an artefact of -race.
-	Coro bool `json:"coroutine_handoff_artefact"`
-	Frames  []string `json:"frames"`
-	Text    string   `json:"text,omitempty"`
+	Coro   bool     `json:"coroutine_handoff_artefact"`
+	Frames []string `json:"frames"`
+	Text   string   `json:"text,omitempty"`
 }
 
 var frameRe = regexp.MustCompile(`(?m)^\s{2}([A-Za-z0-9_./\-]+(?:\.\(\*?[A-Za-z0-9_\[\]\.,\* ]+\))?[A-Za-z0-9_.\[\]\-]*)\(`)
